@@ -27,6 +27,14 @@ _UNION_AWARE = set()
 
 
 def call_builtin(I_, f, args, kws, st, ctx, k, node):
+  import operator as _op
+  if isinstance(f, _op.itemgetter) and len(args) == 1:
+    # operator.itemgetter(i)(x): subscript
+    import re as _re
+    mm = _re.match(r"operator\.itemgetter\((-?\d+)\)$", repr(f))
+    if mm:
+      return I_.getitem(args[0], int(mm.group(1)), st, ctx, k, node)
+    raise Unsupported("operator.itemgetter with several indices")
   m = _TABLE.get(f)
   if m is not None:
     if f not in _UNION_AWARE:
